@@ -3,15 +3,17 @@
 # Applies <mutant-dir>/patch.diff to /repo, (with --full: demo fails, stable tests pass), runs the quick check, reverts.
 set -u
 P="$1"; D="$2"; FULL="${3:-}"
-cd /repo
+R="${VERIF_REPO:-/repo}"   # the tree the change is applied to (a scratch clone when /repo itself is in use)
+export VERIF_REPO="$R"
+cd "$R"
 if ! git diff --quiet; then echo "REPO DIRTY - abort"; exit 9; fi
 git apply --check "$D/patch.diff" || { echo "PATCH DOES NOT APPLY"; exit 8; }
 if [ "$FULL" = "--full" ]; then
-  (cd /tmp && PYTHONPATH=/repo timeout 900 /venv/bin/python "$D/demo.py" >/tmp/demo_clean.log 2>&1); echo "demo on clean tree: exit $?"
+  (cd /tmp && PYTHONPATH="$R" timeout 900 /venv/bin/python "$D/demo.py" >/tmp/demo_clean.log 2>&1); echo "demo on clean tree: exit $?"
 fi
 git apply "$D/patch.diff"
-SRC=/repo/thejoker/src; SO=fast_likelihood.cpython-312-x86_64-linux-gnu.so
-restore() { cd /repo && git checkout -- . ; if [ -f /tmp/try_mutant_c.bak ]; then mv /tmp/try_mutant_c.bak $SRC/fast_likelihood.c; mv /tmp/try_mutant_so.bak $SRC/$SO; fi; cd /verif && git checkout -- evidence 2>/dev/null; }
+SRC="$R"/thejoker/src; SO=fast_likelihood.cpython-312-x86_64-linux-gnu.so
+restore() { cd "$R" && git checkout -- . ; if [ -f /tmp/try_mutant_c.bak ]; then mv /tmp/try_mutant_c.bak $SRC/fast_likelihood.c; mv /tmp/try_mutant_so.bak $SRC/$SO; fi; cd /verif && git checkout -- evidence 2>/dev/null; }
 trap restore EXIT
 if [ -f "$D/c_patch.diff" ]; then
   # the change also edits the generated C (git-ignored): apply it to /repo's copy, rebuild the extension in place, restore both afterwards
@@ -22,8 +24,8 @@ if [ -f "$D/c_patch.diff" ]; then
   echo "applied c_patch.diff and rebuilt the extension in /repo (restored on exit)"
 fi
 if [ "$FULL" = "--full" ]; then
-  (cd /tmp && PYTHONPATH=/repo timeout 900 /venv/bin/python "$D/demo.py" >/tmp/demo_mut.log 2>&1); echo "demo on mutated tree: exit $?"
-  /verif/tools/baseline_check.py /repo | head -5
+  (cd /tmp && PYTHONPATH="$R" timeout 900 /venv/bin/python "$D/demo.py" >/tmp/demo_mut.log 2>&1); echo "demo on mutated tree: exit $?"
+  /verif/tools/baseline_check.py "$R" | head -5
 fi
 cd /verif && timeout 3000 ./check "$P" --tier quick > /tmp/mut_check.log 2>&1; rc=$?
 echo "check exit: $rc"; grep -E "VIOLATION|KNOWN-FINDING|^\[$P\] tier" /tmp/mut_check.log | head -5
